@@ -217,6 +217,9 @@ func shrink(c Case, pred func(Case) bool) Case {
 	cur := c
 	n := 2
 	for len(cur.Lines) > 2 {
+		if hangBudget <= 0 { // replays no longer return: keep what has been reached
+			break
+		}
 		body := cur.Lines[1:]
 		chunk := (len(body) + n - 1) / n
 		reduced := false
@@ -229,7 +232,7 @@ func shrink(c Case, pred func(Case) bool) Case {
 			cand.Lines = append(cand.Lines, cur.Lines[0])
 			cand.Lines = append(cand.Lines, body[:start]...)
 			cand.Lines = append(cand.Lines, body[end:]...)
-			if len(cand.Lines) > 1 && pred(cand) {
+			if len(cand.Lines) > 1 && hangBudget > 0 && pred(cand) {
 				cur = cand
 				if n > 2 {
 					n--
@@ -339,7 +342,7 @@ func Run(e *Engine, tier string, seed uint64, driver string, knownPath string, r
 			res.Samples = append(res.Samples, strings.Join(c.Lines, " ; ")+"  =>  "+strings.Join(impl[i], " ; "))
 		}
 		if e.Oracle != nil {
-			if what, line := e.Oracle(c, impl[i]); what != "" {
+			if what, line := oracleSafe(e, c, impl[i]); what != "" {
 				pend = append(pend, pending{i, "oracle", what, line})
 				continue
 			}
@@ -367,9 +370,9 @@ func Run(e *Engine, tier string, seed uint64, driver string, knownPath string, r
 		f := Failure{Kind: p.kind, What: p.what, Line: p.line, FromTag: c.Tag}
 		var small Case
 		if p.kind == "oracle" {
-			small = shrink(c, func(x Case) bool { w, _ := e.Oracle(x, e.RunImpl(x)); return w != "" })
-			out := e.RunImpl(small)
-			f.What, f.Line = e.Oracle(small, out)
+			small = shrink(c, func(x Case) bool { w, _ := oracleSafe(e, x, runSafe(e, x)); return w != "" })
+			out := runSafe(e, small)
+			f.What, f.Line = oracleSafe(e, small, out)
 			f.Impl = out
 			if model != nil {
 				if m, err := RunDriver(driver, e.DriverEngine, []Case{small}); err == nil {
@@ -382,9 +385,9 @@ func Run(e *Engine, tier string, seed uint64, driver string, knownPath string, r
 				if err != nil {
 					return false
 				}
-				return firstDiff(e, e.RunImpl(x), m[0]) >= 0
+				return firstDiff(e, runSafe(e, x), m[0]) >= 0
 			})
-			out := e.RunImpl(small)
+			out := runSafe(e, small)
 			m, _ := RunDriver(driver, e.DriverEngine, []Case{small})
 			f.Impl = out
 			if len(m) > 0 {
@@ -401,11 +404,11 @@ func Run(e *Engine, tier string, seed uint64, driver string, knownPath string, r
 					cands = append(cands, e.Search(small, NewRand(seed^uint64(n+1)))...)
 				}
 				for _, x := range cands {
-					o := e.RunImpl(x)
-					if w, l := e.Oracle(x, o); w != "" {
-						x2 := shrink(x, func(y Case) bool { w, _ := e.Oracle(y, e.RunImpl(y)); return w != "" })
-						o2 := e.RunImpl(x2)
-						w, l = e.Oracle(x2, o2)
+					o := runSafe(e, x)
+					if w, l := oracleSafe(e, x, o); w != "" {
+						x2 := shrink(x, func(y Case) bool { w, _ := oracleSafe(e, y, runSafe(e, y)); return w != "" })
+						o2 := runSafe(e, x2)
+						w, l = oracleSafe(e, x2, o2)
 						f.Kind, f.What, f.Line, f.Impl = "oracle", w, l, o2
 						small = x2
 						break
@@ -439,6 +442,46 @@ func runWithTimeout(e *Engine, c Case, d time.Duration) ([]string, bool) {
 		return out, true
 	case <-time.After(d):
 		return nil, false
+	}
+}
+
+// runSafe is RunImpl under the watchdog, for the replays made while shrinking: a case on which the implementation
+// does not return answers "hang" on every line (so it differs from every model answer and fails every oracle that
+// looks at it) instead of blocking the check.
+var hangBudget = 4 // after that many timeouts no further replay is waited for (each costs a minute and a blocked goroutine)
+
+func runSafe(e *Engine, c Case) []string {
+	var out []string
+	ok := false
+	if hangBudget > 0 {
+		out, ok = runWithTimeout(e, c, 60*time.Second)
+		if !ok {
+			hangBudget--
+		}
+	}
+	if !ok {
+		out = make([]string, len(c.Lines))
+		for i := range out {
+			out[i] = "hang"
+		}
+	}
+	return out
+}
+
+// oracleSafe is Oracle under a watchdog: oracles that replay a program on the implementation (twins, sequential
+// references) can meet the same deadlock as the run itself.
+func oracleSafe(e *Engine, c Case, impl []string) (string, int) {
+	type res struct {
+		what string
+		line int
+	}
+	ch := make(chan res, 1)
+	go func() { w, l := e.Oracle(c, impl); ch <- res{w, l} }()
+	select {
+	case r := <-ch:
+		return r.what, r.line
+	case <-time.After(120 * time.Second):
+		return "the oracle's replay of this case on the implementation does not return (deadlock or livelock)", 0
 	}
 }
 
